@@ -97,6 +97,7 @@ def run(ctx):
                 names = sorted(probe.get_amplitude().get_params())
                 free0 = list(probe.get_amplitude().vm.trainable_vars)
             kinds = set(card["meta"]["constraint_kinds"])
+            active_bound = None
             constr = card["config"].setdefault("constrains", {})
             gls_r = [k for k in free0 if k.endswith("r") and "g_ls" in k]
             tot_r = [k for k in free0 if k.endswith("total_0r")]
@@ -105,10 +106,17 @@ def run(ctx):
                 kinds.add("one-sided bound")
             if len(tot_r) >= 2 and i % 3 == 0:
                 constr["var_equal"] = [[tot_r[-2], tot_r[-1]]]
-                if "var_range" in constr and (tot_r[-2] in constr["var_range"] or tot_r[-1] in constr["var_range"]):
-                    del constr["var_range"]
-                    kinds.discard("one-sided bound")
                 kinds.add("tie")
+                if i % 6 == 3:
+                    # a range declared on the SECOND name of the tie (the shared variable must respect it); the lower edge is moved
+                    # above the generating value further down, so that the bound is active at the minimum
+                    constr["var_range"] = {tot_r[-1]: [0.05, None]}
+                    kinds.add("bound on a tied (non-head) name")
+                    active_bound = (tot_r[-1], tot_r[-2])
+                elif i % 6 == 0:
+                    constr["var_range"] = {tot_r[-2]: [0.05, None]}
+                    kinds.add("bound on a tied (head) name")
+                    active_bound = (tot_r[-2], tot_r[-2])
             elif len(gls_r) >= 2 and i % 3 == 0:
                 constr["var_equal"] = [[gls_r[0], gls_r[1]]]
                 kinds.add("tie")
@@ -139,6 +147,9 @@ def run(ctx):
                     truth[k] = -abs(truth[k]) - 0.3
             amp.set_params(truth)
             truth_all = {k: float(v) for k, v in amp.get_params().items()}
+            if active_bound is not None and active_bound[0] in cfg.bound_dic:
+                # lower edge 0.3 above the generating value of the shared radius: the fit runs into the bound
+                cfg.bound_dic[active_bound[0]] = (abs(truth_all[active_bound[1]]) + 0.3, None)
             # toy data from the model
             ps = cards.events(card, 5000, rng, classes=False)
             with quiet():
@@ -180,6 +191,12 @@ def run(ctx):
                     pstart[k] = v + (0.05 if start == "near" else 0.6) * float(rng.normal())
                     if k in cfg.bound_dic and cfg.bound_dic[k][0] is not None:
                         pstart[k] = max(pstart[k], cfg.bound_dic[k][0] + 0.05)
+                    # a bound declared on another name of the same tie applies to the shared variable
+                    for g_ in vm.same_list:
+                        if k in g_:
+                            for k2 in g_:
+                                if k2 in cfg.bound_dic and cfg.bound_dic[k2][0] is not None:
+                                    pstart[k] = max(pstart[k], cfg.bound_dic[k2][0] + 0.05)
             amp.set_params(pstart)
             before = {k: float(v) for k, v in amp.get_params().items()}
             fixed_names = [k for k in before if k not in vm.trainable_vars and not any(k in g for g in vm.same_list)]
